@@ -1,7 +1,13 @@
 import Prism.Proofs.C03
+import Prism.Proofs.C03Float
 
 #print axioms Prism.C03_chromaticities_published
 #print axioms Prism.C03_coefficients
 #print axioms Prism.C03_inverse_and_white
 #print axioms Prism.C03_toXYZ_is_matrix
 #print axioms Prism.C03_fromXYZ_is_matrix
+#print axioms Prism.C03_roundtrip_rgb
+#print axioms Prism.C03_roundtrip_rgb_unit
+#print axioms Prism.C03_roundtrip_xyz
+#print axioms Prism.C03_toXYZ_float
+#print axioms Prism.C03_fromXYZ_float
